@@ -27,6 +27,9 @@ enum Op {
     SelfWake,
     Gate(usize),
     DropHandle,
+    /// a yield whose future is polled once and then dropped (e.g. it lost a select against a deadline): the item is
+    /// on its way and must still be delivered, in order
+    YieldAbandon(u32),
     Return,
 }
 
@@ -41,6 +44,7 @@ enum PEv {
     Returned(u32),
     /// yield_all pulled this item out of the caller's (lazy) iterator
     Produced(u32),
+    EmitAbandoned(u32),
     // consumer side
     Taken(u32),
     Complete(u32),
@@ -96,6 +100,7 @@ fn gen_program(rng: &mut Rng) -> (Vec<Op>, usize) {
     let mut ops = vec![];
     let mut next_id = 1u32;
     let mut gates = 0usize;
+    let mut abandoned_once = false;
     for _ in 0..len {
         ops.push(match rng.below(10) {
             0..=3 => {
@@ -108,7 +113,17 @@ fn gen_program(rng: &mut Rng) -> (Vec<Op>, usize) {
                 next_id += k as u32;
                 Op::YieldAll(ids)
             }
-            6 => Op::SelfWake,
+            6 => {
+                // at most one per program: its first poll finds the channel slot free (every earlier yield was awaited
+                // to completion), so the item is on its way when the future is dropped
+                if rng.chance(1, 3) && !abandoned_once {
+                    abandoned_once = true;
+                    next_id += 1;
+                    Op::YieldAbandon(next_id - 1)
+                } else {
+                    Op::SelfWake
+                }
+            }
             7 | 8 => {
                 gates += 1;
                 Op::Gate(gates - 1)
@@ -133,6 +148,7 @@ fn prog_label(ops: &[Op]) -> String {
     ops.iter()
         .map(|o| match o {
             Op::Yield(_) => "y".to_string(),
+            Op::YieldAbandon(_) => "x".to_string(),
             Op::YieldAll(v) => format!("a{}", v.len()),
             Op::SelfWake => "w".into(),
             Op::Gate(_) => "g".into(),
@@ -174,6 +190,14 @@ fn run_program(ops: &[Op], n_gates: usize, mode: u64, variant: u64, rng: &mut Rn
                         l2.borrow_mut().push(PEv::ResumedAll(ids));
                     }
                 }
+                Op::YieldAbandon(id) => {
+                    if let Some(c) = co.as_mut() {
+                        l2.borrow_mut().push(PEv::EmitAbandoned(id));
+                        let mut f = Box::pin(c.yield_(id));
+                        let _ = futures::poll!(f.as_mut());
+                        drop(f);
+                    }
+                }
                 Op::SelfWake => yield_once().await,
                 Op::Gate(g) => {
                     l2.borrow_mut().push(PEv::GateAwait(g));
@@ -196,7 +220,7 @@ fn run_program(ops: &[Op], n_gates: usize, mode: u64, variant: u64, rng: &mut Rn
     let mut dropped = false;
     for op in ops {
         match op {
-            Op::Yield(id) if !dropped => expected.push(*id),
+            Op::Yield(id) | Op::YieldAbandon(id) if !dropped => expected.push(*id),
             Op::YieldAll(ids) if !dropped => expected.extend(ids.iter().copied()),
             Op::DropHandle => dropped = true,
             Op::Return => {
